@@ -18,6 +18,8 @@ Record c04_case := mkCase {
   k_cfg : cfg;
   k_umask : N;
   k_init : files;
+  k_partlink : bool;                                (* the part file is a hard link of the destination (what a
+                                                       death between link and unlink leaves behind) *)
   k_body : list bop;                                (* with the measured buffering oracle *)
   k_raises : bool;
   k_sched : list (nat * action);
@@ -76,8 +78,12 @@ Definition files_agree (s : fs) (obs : files) (cands : list name) : bool :=
 Definition cands (c : c04_case) : list name :=
   c_dest (k_cfg c) :: c_part (k_cfg c) :: map fst (k_init c).
 
+Definition init_fs (c : c04_case) : fs :=
+  let s := fs_of_list (k_init c) in
+  if k_partlink c then set_name s (c_part (k_cfg c)) (f_dir s (c_dest (k_cfg c))) else s.
+
 Definition run_model (c : c04_case) (crash : option nat) : outcome unit * world :=
-  run_save (k_cfg c) (k_body c) (k_raises c) (fs_of_list (k_init c)) (k_umask c) crash (k_sched c).
+  run_save (k_cfg c) (k_body c) (k_raises c) (init_fs c) (k_umask c) crash (k_sched c).
 
 (* ---- agree: the model reproduces everything observed ---- *)
 Definition agree_run (c : c04_case) : bool :=
